@@ -272,7 +272,7 @@ pub fn replay(ctx: &Arc<Ctx>, v: &Value) {
 pub fn run(ctx: &Arc<Ctx>) {
     refmodels::selftest::run(&["sm3", "sm2"]).unwrap_or_else(|e| ctx.machinery_error(format!("reference self-test failed: {}", e)));
     let n = sm2::params().n.clone();
-    ctx.set_rule("private keys d x nonces k (via the RNG seam) over {1,2,3,n-2,n-3,2^255,2^128-1,limb patterns,Annex,seeded} with two (ID,message) pairs, plus IDs {default, \"\", 1, 16, 8191 bytes, seeded} x message lengths {0,1,31,32,33,55,56,64,119,4096} x {zero, seeded} with two (d,k) pairs, every message length 0..=300 (thorough 1200) with one; key objects whose public point is affine or Jacobian with Z in {2, p-1, seeded} sign and verify identically; ID of 8192 bytes must be refused; pre-searched messages whose digest e is >= n; GM/T 0003.5 Annex A exact; OpenSSL signature corpus. Per case: 64 bytes, r,s in [1,n-1], exact equality with the reference signature for the nonce the seam reports as accepted, reference verifier accepts, library verifier accepts its own and a reference-made signature.");
+    ctx.set_rule("private keys d x nonces k (via the RNG seam) over {1,2,3,n-2,n-3,2^255,2^128-1,limb patterns,Annex,seeded} with two (ID,message) pairs, plus IDs {default, \"\", 1, 16, 8191 bytes, seeded} x message lengths {0,1,31,32,33,55,56,64,119,4096} x {zero, seeded} with two (d,k) pairs, every message length and every ID length 0..=300 (thorough 1200) with one; key objects whose public point is affine or Jacobian with Z in {2, p-1, seeded} sign and verify identically; ID of 8192 bytes must be refused; pre-searched messages whose digest e is >= n; GM/T 0003.5 Annex A exact; OpenSSL signature corpus. Per case: 64 bytes, r,s in [1,n-1], exact equality with the reference signature for the nonce the seam reports as accepted, reference verifier accepts, library verifier accepts its own and a reference-made signature.");
     // d in [1, n-2]: top element n-2; k in [1, n-1]: top element n-1
     let ds = scalar_alphabet(&n, ctx.seed, "c03d", 2);
     let ks = scalar_alphabet(&n, ctx.seed, "c03k", 1);
@@ -301,6 +301,10 @@ pub fn run(ctx: &Arc<Ctx>) {
                 }
             }
         }
+    }
+    // every ID length 0..=300 (ENTL crosses 255 bits at 32 bytes and 2040 bits at 255 bytes) with one (d, k, message)
+    for il in 0..=ctx.tier.pick(300usize, 1200) {
+        cases.push(Case::Sign { d: ANNEX_D.into(), id: Some(format!("len:{}", il)), msg_len: 20, msg_class: "seed".into(), k: ANNEX_K.into(), tag: "idlen-sweep".into() });
     }
     // every message length 0..=300 (thorough 1200) with one (d, k, ID)
     for ml in 0..=ctx.tier.pick(300usize, 1200) {
